@@ -89,6 +89,9 @@ def potable_cli(cfg_text, args=(), want_output=True, binary=False):
                     potable.main()
                 except SystemExit as e:
                     rc = e.code if isinstance(e.code, int) else (0 if e.code is None else 1)
+                except Exception as e:  # an exception leaving main(): the process would die with a traceback, exit status 1
+                    rc = 1
+                    se.write("Traceback (uncaught %s): %s" % (type(e).__name__, e))
         finally:
             sys.argv = old
             # argparse FileType leaves the config file open
